@@ -12,7 +12,8 @@ prop=$(python3 -c "import json;print(json.load(open('$dir/meta.json'))['property
 checks="${*:-$prop}"
 wt=$(mktemp -d /tmp/seedwt-XXXXXX); rmdir "$wt"
 git -C /repo worktree add -q --detach "$wt" HEAD || exit 2
-trap 'git -C /repo worktree remove --force "$wt" >/dev/null 2>&1; rm -rf "$wt"' EXIT
+key=$(echo "$wt" | cksum | cut -d" " -f1)
+trap 'git -C /repo worktree remove --force "$wt" >/dev/null 2>&1; rm -rf "$wt" ".bin/vcheck.$key" engine/go.gen.$key.mod engine/go.gen.$key.sum' EXIT
 if ! git -C "$wt" apply "$PWD/$dir/patch.diff"; then echo "SEED $name: patch does not apply to HEAD"; exit 3; fi
 if [ "${SEED_SKIP_TESTS:-0}" != 1 ]; then
   VERIF_REPO="$wt" ./baseline.sh | tail -1
